@@ -2012,3 +2012,102 @@ pub fn hemmed(shard: usize, f: Sink) {
         }
     }
 }
+
+// ---------------------------------------------------------------------------------------------
+// ALIGNED, DISCOVER
+
+/// ALIGNED as raw boards: a king on one of four inner squares; in each of the eight directions
+/// nothing, an enemy slider at distance 2 (bishop on diagonals, rook on lines; second variant:
+/// queens everywhere), or that slider with an enemy knight on the square between (blocked): 3^8
+/// arrangements x 2 slider variants x 4 king squares x 2 sides to move; the other king far away.
+/// Up to eight sliders aligned with the king, any number of them blocked; valid and invalid boards.
+pub fn aligned(shard: usize, f_raw: &mut dyn FnMut(&RawPos)) {
+    let ksq = [sq(2, 2), sq(4, 3), sq(3, 5), sq(5, 4)][shard % 4];
+    let queens = shard / 4 % 2 == 1;
+    let kcol = (shard / 8 % 2) as u8;
+    let opp = 1 - kcol;
+    let dirs = [(1, 0), (-1, 0), (0, 1), (0, -1), (1, 1), (1, -1), (-1, 1), (-1, -1)];
+    let far = [0usize, 7, 56, 63].into_iter().find(|&c| (file_of(c) - file_of(ksq)).abs().max((rank_of(c) - rank_of(ksq)).abs()) >= 4).unwrap_or(63);
+    for code in 0..3usize.pow(8) {
+        let mut b = [EMPTY; 64];
+        b[ksq] = mk(kcol, K);
+        b[far] = mk(opp, K);
+        let mut x = code;
+        let mut ok = true;
+        for (df, dr) in dirs {
+            let o = x % 3;
+            x /= 3;
+            if o == 0 {
+                continue;
+            }
+            let s1 = sq(file_of(ksq) + df, rank_of(ksq) + dr);
+            let s2 = sq(file_of(ksq) + 2 * df, rank_of(ksq) + 2 * dr);
+            if b[s1] != EMPTY || b[s2] != EMPTY {
+                ok = false;
+                break;
+            }
+            let sl = if queens { Q } else if df == 0 || dr == 0 { R } else { B };
+            b[s2] = mk(opp, sl);
+            if o == 2 {
+                b[s1] = mk(opp, N);
+            }
+        }
+        if !ok {
+            continue;
+        }
+        for stm in 0..2u8 {
+            f_raw(&RawPos { b, stm, cr: [false; 4], eps: None, hmc: 0, fmn: 1 });
+        }
+    }
+}
+pub const ALIGNED_SHARDS: usize = 16;
+
+/// DISCOVER roots: an own pawn on its home square whose departure opens a line from an own slider
+/// to the enemy king (the pawn is the only man between them, on a rank or a diagonal through its
+/// square), an enemy pawn that could take en passant, own king far away. The first move of the
+/// history is the pawn's single or double step (a discovered check, with an en-passant mark).
+pub fn discover(own: u8, f: Sink) {
+    let opp = 1 - own;
+    let r2 = if own == 0 { 1 } else { 6 };
+    let r4 = if own == 0 { 3 } else { 4 };
+    let on = |f: i32, r: i32| (0..8).contains(&f) && (0..8).contains(&r);
+    for pf in 0..8 {
+        let psq = sq(pf, r2);
+        for (df, dr) in [(1, 0), (1, 1), (1, -1)] {
+            for sign in [1, -1] {
+                let (df, dr) = (df * sign, dr * sign);
+                // slider on one side, enemy king on the other
+                for ds in 1..=3 {
+                    for dk in 1..=3 {
+                        let (sf, sr) = (pf - df * ds, r2 - dr * ds);
+                        let (kf, kr) = (pf + df * dk, r2 + dr * dk);
+                        if !on(sf, sr) || !on(kf, kr) {
+                            continue;
+                        }
+                        for &sk in &[if dr == 0 { R } else { B }, Q] {
+                            for ep_side in [-1, 1] {
+                                if !on(pf + ep_side, r4) {
+                                    continue;
+                                }
+                                let mut p = Pos::empty();
+                                p.stm = own;
+                                p.b[psq] = mk(own, P);
+                                p.b[sq(sf, sr)] = mk(own, sk);
+                                p.b[sq(kf, kr)] = mk(opp, K);
+                                let e = sq(pf + ep_side, r4);
+                                if p.b[e] != EMPTY {
+                                    continue;
+                                }
+                                p.b[e] = mk(opp, P);
+                                // own king: first free corner far from the enemy king
+                                let Some(&c) = [0usize, 7, 56, 63].iter().find(|&&c| p.b[c] == EMPTY && (file_of(c) - kf).abs().max((rank_of(c) - kr).abs()) >= 2) else { continue };
+                                p.b[c] = mk(own, K);
+                                emit_if_valid(&p, f);
+                            }
+                        }
+                    }
+                }
+            }
+        }
+    }
+}
